@@ -46,7 +46,7 @@ SCENARIOS = [
 
 def grammars():
     names = ('recursive', 'nested-obj', 'abstract', 'objref', 'plus-sep-obj', 'kinds-objref-abstract',
-             'kinds-abstract-attr-type')
+             'kinds-abstract-attr-type', 'mixed-list')
     return [g for g in corpus.ALL if g['name'] in names] + SCENARIOS
 
 
@@ -120,9 +120,10 @@ def children_of(o, cont):
     res = []
     for an in cont.get(type(o).__name__, []):
         v = getattr(o, an, None)
+        # an abstract rule with match alternatives also yields primitive values: those are not model objects
         if isinstance(v, list):
-            res += [x for x in v if x is not None]
-        elif v is not None:
+            res += [x for x in v if hasattr(type(x), '_tx_attrs')]
+        elif hasattr(type(v), '_tx_attrs'):
             res.append(v)
     return res
 
